@@ -3,7 +3,7 @@
    D5), value stores (value_store.rs), index headers (index.rs), value extraction
    (builder/property.rs), written as parsers / reader programs over bytes. *)
 From Coq Require Import List Arith NArith ZArith Bool Lia.
-From Jbk Require Import Base.ListExtra Base.Bytes Base.Crc Base.Parser Base.Prog Format.Structs
+From Jbk Require Import Base.ListExtra Base.Bytes Base.Crc Base.Parser Base.Utf8 Base.Prog Format.Structs
   Manifest.SetLocation Content.Pack.
 Import ListNotations.
 Open Scope N_scope.
@@ -20,8 +20,10 @@ Inductive pkind :=
 
 Record rawprop := { rp_size : nat; rp_name : list N; rp_kind : pkind }.
 
+(* PString::parse: a length byte, the bytes, which must be well-formed UTF-8 (SmallString::from_byte_vec) *)
 Definition p_pstring : parser (list N) :=
-  fun l => '(n, l) <- p_u 1 l ;; p_bytes (N.to_nat n) l.
+  fun l => '(n, l) <- p_u 1 l ;; '(s, l) <- p_bytes (N.to_nat n) l ;;
+           if utf8_valid s then Ok (s, l) else Err EFormat.
 
 Definition p_signed (n : nat) : parser Z :=
   fun l => '(v, l) <- p_u n l ;; Ok (sext n v, l).
@@ -310,14 +312,18 @@ Definition dp_entry_store_p (d : dpack) (k : N) : prog (layout * list N) :=
   data <~ RdBlock (dp_base d + so_off so - dsize - 4) dsize (fun b => Ret b) ;;
   Ret (ly, data).
 
+(* Reader::parse_data_block::<ValueStore>: the tail block, then the data block just before it *)
+Definition vstore_at_p (base : N) (so : sized_offset) : prog vstore :=
+  t <~ RdBlock (base + so_off so) (so_size so) (fun b => lift (parse_all p_vs_tail b)) ;;
+  match t with
+  | VTPlain sz => data <~ RdBlock (base + so_off so - sz - 4) sz (fun b => Ret b) ;; Ret (VSPlain data)
+  | VTIndexed offs sz => data <~ RdBlock (base + so_off so - sz - 4) sz (fun b => Ret b) ;; Ret (VSIndexed offs data)
+  end.
+
 Definition dp_value_store_p (d : dpack) (k : N) : prog vstore :=
   if dh_value_count (dp_dh d) <=? k then Fail EFormat else
   so <~ ptr_at (dp_vptrs d) k ;;
-  t <~ RdBlock (dp_base d + so_off so) (so_size so) (fun b => lift (parse_all p_vs_tail b)) ;;
-  match t with
-  | VTPlain sz => data <~ RdBlock (dp_base d + so_off so - sz - 4) sz (fun b => Ret b) ;; Ret (VSPlain data)
-  | VTIndexed offs sz => data <~ RdBlock (dp_base d + so_off so - sz - 4) sz (fun b => Ret b) ;; Ret (VSIndexed offs data)
-  end.
+  vstore_at_p (dp_base d) so.
 Close Scope prog_scope.
 
 (* entry j of a store: (variant id, [(name, value)]) *)
